@@ -40,6 +40,8 @@ ASSUMPTIONS = [
     'port layout: edges-first and feeds/products-first everywhere; every interleaving of the free ports with the edge ports of a port list (applied uniformly over the units: 9 in/out choices x 2 partner '
     'orders) for all n <= 3 flowsheets and for n = 4 with port counts deviating from the minimum in <= 1 place (n = 4: thorough; quick: products-first with 8 fixed orders)',
     'cyclic n = 5: one back edge only; all edge multisets with minimal ports (thorough), single streams with ports deviating in <= 1 place (thorough), single streams with minimal ports (quick); 10 fixed orders',
+    'cyclic n = 6 (thorough only): single streams, forward degree <= 2, two distinct CHAINED back edges (head of one = tail of the other, i.e. overlapping loops), ports minimal or minimal + one side product, '
+    'edges-first layout, identity and reverse unit order (305 461 flowsheets); overlapping loops at n >= 7 or with more port deviations are not explored',
     'cyclic flowsheets: a back edge gets an additional outlet port on the later unit and an additional inlet port on the earlier one; the feed and '
     'product ports of the acyclic flowsheet are kept, so every unit still reaches a product and every source unit still has a feed; no self loops',
     'cyclic: "contains exactly the given units" is checked as set equality (a unit shared by two loops may be listed in both sub-networks); '
@@ -731,6 +733,32 @@ def _rebuild_cfgs(n, As, layout=0, hs=0):
                     yield ('rb', n, tuple(MA), tuple(MB), sigma, layout, hs)
     return gen
 
+def _overlap6(nedges=None, chained=False):
+    """six units, single streams, forward in/out degree <= 2, two distinct back edges that share a unit (overlapping / chained recycle loops);
+    ports minimal, or minimal plus ONE side product.  nedges: only DAGs with that many forward edges; chained: the head of one back edge is the tail of the other"""
+    def gen():
+        n = 6
+        pairs = pairs_of(n)
+        bs = []
+        for B in back_multisets(n, (2,)):
+            if max(B) > 1: continue
+            e = [(j, i) for (i, j), b in zip(pairs, B) if b]
+            if not set(e[0]) & set(e[1]): continue
+            if chained and not (e[0][1] == e[1][0] or e[1][1] == e[0][0]): continue
+            bs.append(B)
+        for M in edge_multisets(n, 1, 2):
+            if nedges is not None and sum(M) != nedges: continue
+            for B in bs:
+                rng = port_ranges(n, M, B)
+                if rng is None: continue
+                los = tuple(lo for lo, hi in rng)
+                yield (n, M, B, los[:n], los[n:], 0, 0)
+                for k in range(n, 2 * n):
+                    if los[k] + 1 <= rng[k][1]:
+                        fp = los[:k] + (los[k] + 1,) + los[k + 1:]
+                        yield (n, M, B, fp[:n], fp[n:], 0, 0)
+    return gen
+
 def _hist_cfgs(tier):
     # start from the chain and the fan with maximal ports so that connect / cut have room
     def gen():
@@ -763,6 +791,8 @@ SYSTEMS = [
     # (second feeds / side products) and the products-first layout; 10 fixed orders = every unit first once in ascending and once in descending rotation
     C19('c19.cyclic.n5.simple', _G(5, backs=(1,), ports='min', maxpar=1),
         _chain(_G(5, backs=(1,), ports='dev1', maxpar=1), _G(5, backs=(1,), ports='min', maxpar=1, layouts=(1,))), orders='fixed12'),
+    # overlapping recycle loops at n = 6 (thorough only; identity and reverse unit order)
+    C19('c19.cyclic.n6.overlap', None, _overlap6(chained=True), orders='ends2'),
     C19('c19.history.n3', _hist_cfgs('quick'), _hist_cfgs('thorough'), history=True, depth_q=3, depth_t=4),
     # build a network, re-pipe THE SAME unit objects into another flowsheet, build again (all unit orders): state kept from the first build must not matter
     C19('c19.rebuild.n3', _rebuild_cfgs(3, None), _chain(_rebuild_cfgs(3, None), _rebuild_cfgs(3, None, layout=1, hs=1)), rebuild=True, depth_q=3, depth_t=3),
